@@ -404,4 +404,5 @@ def replay(run):
 
 
 if __name__ == '__main__':
-    main()
+    from common import run_guarded
+    run_guarded('C15', main)
